@@ -520,6 +520,27 @@ func (pr *proto) node6() {
 			continue
 		}
 		dc, isC := flow.StripAll(d).(*ssa.Call)
+		if !isC {
+			// the list was first remembered in a field of the node (`sn.deps = sn.Dependencies(); deps := sn.deps`):
+			// the value read back is what the dominating store put there
+			if lf, _ := flow.LoadedField(flow.StripAll(d)); lf != nil {
+				if ld, isLd := flow.StripAll(d).(ssa.Instruction); isLd {
+					var best *ssa.Store
+					ssau.AllInstrs(fn, func(in ssa.Instruction) {
+						st, isSt := in.(*ssa.Store)
+						if !isSt {
+							return
+						}
+						if sf, _ := flow.FieldBase(st.Addr); sameField(sf, lf) && ssau.Before(st, ld) && (best == nil || ssau.Before(best, st)) {
+							best = st
+						}
+					})
+					if best != nil {
+						dc, isC = flow.StripAll(best.Val).(*ssa.Call)
+					}
+				}
+			}
+		}
 		if !isC || flow.Callee(dc) == nil {
 			pr.rep.undecide("NODE-6", construct, ssau.PosOf(w.at), "the snapshot's dependency slice is not a direct call result")
 			okAll = false
